@@ -260,6 +260,8 @@ def judge(c, rec, outs):
                   + ("/order2" if s["order"] == 2 else "") + ("/critical" if s.get("critical") else ""))
         if inst["opts"].get("scale_by_problem_size"):
             c.hit("scale_by_problem_size")
+        if any(s.get("offset") for s in goals):
+            c.hit("goal function with a constant term")
         if not cap["g_affine"] or "f_not_quadratic" in cap:
             c.disagree("transcribed problem is not affine/quadratic for a linear model with order <= 2 goals",
                        {"inst": case, "priority": ident}, None, cap.get("f_not_quadratic"))
@@ -453,6 +455,42 @@ def probe_F14(c):
         c.known_probe("F14", bool(bad), what)
 
 
+def probe_F49(c):
+    """IPOPT square-problem shortcut on redundant retained equalities (known finding F49)"""
+    nan = float("nan")
+    inst = {"times": [0.0, 1.0], "theta": 1.0, "probs": [0.5, 0.5], "pvals": [[0.5, 0.0], [1.0, 1.0]],
+            "cvals": [[1.0, 0.5], [0.0, 1.0]], "mode": "default", "solver": "ipopt",
+            "opts": {"scale_by_problem_size": False, "fix_minimized_values": True, "constraint_relaxation": 0.0},
+            "goals": [
+                {"path": True, "vars": ["w"], "kind": "both", "priority": 2, "order": 2, "weight": 1.0, "ti": 1,
+                 "nominal": [1.0], "range": ([-5.0], [30.0]), "tmin": {"k": "sc", "v": 15.0},
+                 "tmax": {"k": "sc", "v": 18.0}, "relaxation": 0.5},
+                {"path": True, "vars": ["u"], "kind": "min", "priority": 2, "order": 2, "weight": 2.5, "ti": 0,
+                 "nominal": [10.0]},
+                {"path": True, "vars": ["u"], "kind": "min", "priority": 3, "order": 2, "weight": 2.5, "ti": 0,
+                 "nominal": [1.0]},
+                {"path": True, "vars": ["u"], "kind": "tmin", "priority": 10, "order": 1, "weight": 1.0, "ti": 1,
+                 "nominal": [10.0], "range": ([-20.0], [20.0]), "tmin": {"k": "sc", "v": -4.0}, "relaxation": 0.1}]}
+    out, pr = S.run_instance(inst)
+    c.count(("probe", "F49"))
+    bad = False
+    what = "IPOPT square-problem shortcut"
+    if out is True and len(pr.cap) == 3:
+        F = O.build(inst, 2, pr.cap[:2])
+        st, opt, _ = O.solve(F)
+        if st == "optimal" and pr.cap[2]["obj"] - opt > 1e-6:
+            bad = True
+            what = ("fix_minimized_values (IPOPT default) + goals of two priorities on the same function: #equalities "
+                    "= #variables, IPOPT skips the optimisation and reports success: objective_value %.4f, optimum of "
+                    "the documented problem %.4f" % (pr.cap[2]["obj"], opt))
+    st = finding_status(c, "F49")
+    if st is None:
+        c.extra.setdefault("candidate_findings", []).append({"id": "F49", "reproduced": bad, "what": what})
+        c.hit("probe/F44-" + ("reproduced(unlisted)" if bad else "not-reproduced"))
+    else:
+        c.known_probe("F49", bad, what)
+
+
 def run(c):
     c.rule = (
         "random linear synthetic models (x' = -p x + u + c, y = x + q, 2 controls; 2-5 non-equidistant steps, "
@@ -481,6 +519,7 @@ def run(c):
     run_stream(c, c.n(15, 160), mode="default", solver="ipopt", orders=(1, 2, 2), allow_critical=False)
     run_stream(c, c.n(12, 120), solver="highs", orders=(1, 2, 3), linearize=True)
     probe_F14(c)
+    probe_F49(c)
     c.notes.append(
         "optimality is decided per instance (certificate + independent solve), not for all inputs at once: a solver "
         "is numerical code outside the Lean model (partial by design); the objective-assembly theorem and the "
